@@ -500,6 +500,9 @@ class patched:
         self._set(ycat, "multiprocessing", fake)
         self._set(ypar, "_num_processes", lambda: self.sim.cores)
         self._set(ylog, "default_timer", self.sim.clock)
+        from sim import fakefutures
+
+        fakefutures.install(self, self.sim)  # concurrent.futures executors, should the library use them
         return fake
 
     def __exit__(self, *exc) -> None:
